@@ -79,17 +79,17 @@ Theorem C07_mapped_is_present : forall ss rss,
 Proof. exact mapped_is_present. Qed.
 Print Assumptions C07_mapped_is_present.
 
-(** sort_pfn_file_maps yields a permutation sorted by end_pfn, and for
-    non-empty pairwise disjoint windows that is the order [wf_maps] asks for *)
+(** sort_pfn_file_maps (with the tie-break of fixes/40-*.patch) yields a permutation sorted
+    by (end_pfn, start_pfn), and for pairwise disjoint windows — empty ones [n, n) included —
+    that is the order [wf_maps] asks for *)
 Theorem C07_sort_maps : forall l,
-  Permutation (sort_maps l) l /\
-  StronglySorted (fun a b => end_pfn a <= end_pfn b) (sort_maps l).
+  Permutation (sort_maps l) l /\ StronglySorted map_leP (sort_maps l).
 Proof. exact (fun l => conj (sort_maps_perm l) (sort_maps_sorted l)). Qed.
 Print Assumptions C07_sort_maps.
 
 Theorem C07_sorted_disjoint_windows : forall l,
-  StronglySorted (fun a b => end_pfn a <= end_pfn b) l ->
-  Forall (fun m => start_pfn m < end_pfn m) l ->
+  StronglySorted map_leP l ->
+  Forall (fun m => start_pfn m <= end_pfn m) l ->
   ForallOrdPairs (fun a b => end_pfn a <= start_pfn b \/ end_pfn b <= start_pfn a) l ->
   StronglySorted (fun a b => end_pfn a <= start_pfn b) l.
 Proof. exact sorted_disjoint_windows. Qed.
